@@ -24,9 +24,6 @@ JOBS = {
                             'left_v': 'A1', 'rhs': 'A1', 'im': 'Z', 'nc': 'Z'}),
     ]),
     'CoreGS': ('emg3d/core.py', [
-        ('solve', {'amat': 'A1', 'bvec': 'A1'}),
-        ('blocks_to_amat', {'amat': 'A1', 'bvec': 'A1', 'middle': 'A1',
-                            'left_v': 'A1', 'rhs': 'A1', 'im': 'Z', 'nc': 'Z'}),
         ('gauss_seidel', KERN),
         ('gauss_seidel_x', KERN),
         ('gauss_seidel_y', KERN),
@@ -46,16 +43,30 @@ def register(jobs):
     JOBS.update(jobs)
 
 
+# jobs whose functions call functions translated by another job
+DEPS = {'CoreGS': ['CoreBand']}
+
+
 def generate(job, repo=REPO, out_dir=GEN_DIR):
     """(Re)generate Gen/<job>.v.  Returns (path, changed).  Raises
     Untranslatable if the source left the accepted subset."""
     src, fns = JOBS[job]
     tr = Translator(os.path.join(repo, src), registry={})
+    imports = ''
+    for dep in DEPS.get(job, []):
+        dsrc, dfns = JOBS[dep]
+        if dsrc != src:
+            raise Untranslatable(src, 0, f"dependency {dep} comes from another file")
+        for name, types in dfns:      # populates the registry (signatures)
+            tr.function(name, types)
+        imports += f"From V Require Import Gen.{dep}.\n"
     defs = []
     for name, types in fns:
         text, _ = tr.function(name, types)
         defs.append(text)
     text = module_text(src, defs)
+    if imports:
+        text = text.replace("Import ListNotations.\n", "Import ListNotations.\n" + imports, 1)
     path = os.path.join(out_dir, job + '.v')
     old = open(path).read() if os.path.exists(path) else None
     if old != text:
